@@ -11,8 +11,14 @@
    prod internal_shape elements.  An n-d array is  shape + row-major flat list of cells  (NumPy C order).
 
    How other models use this file (e.g. Pipeline.map):  the abstract object is `list (cell E)` of length
-   prod (full_shape g) together with the geometry g; use  dumpM g A [KInt i1; ..] v ,  getM g A key ,
-   mask_linearM g A ,  hasM g A i ,  nd_get (full_shape g) A position.   Facts are in Proofs/StoreFacts.v. *)
+   prod (full_shape g) together with the geometry g (start: `absent E g`); use  dumpM E g A [KInt i1; ..] v ,
+   getM E g A key ,  mask_linearM E g A ,  hasM E g A i ,  nd_get E (full_shape g) A position,  or the whole machine
+   stepM E miss g A op.   Declarative vocabulary (abstraction functions, write history `written`, bad_key) is in
+   Model/StoreSpec.v; facts are in Proofs/StoreBase.v (flat n-d arrays), Proofs/StoreAbs.v (reference operations on
+   abs_of look: getM_abs, dumpM_abs, mask_linearM_abs, hasM_abs, ...), Proofs/StoreFacts.v (sequences).
+   This file and StoreSpec.v have no proof dependencies.  The code modelled is the REPAIRED code (repo commits
+   f05e6d1, 7196226, 35933d0, 0b74677, dba4f89); the pre-repair dump-key / missing-element paths are in
+   Model/StoreLegacy.v. *)
 From Verif Require Import Base.Prelude Base.Index Base.PySlice.
 
 (* ================================================================ PART 1: keys and geometry *)
